@@ -33,7 +33,7 @@ static inline _Bool kpk_legal_idx(uint32_t idx) { return idx < KPK_MAX_INDEX && 
 /* k-th king step (0..7) from sq, or 64 if it leaves the board */
 static inline uint32_t kpk_step(uint32_t sq, int k)
 {
-  static const int df[8] = {-1, 0, 1, -1, 1, -1, 0, 1}, dr[8] = {-1, -1, -1, 0, 0, 1, 1, 1};
+  const int df[8] = {-1, 0, 1, -1, 1, -1, 0, 1}, dr[8] = {-1, -1, -1, 0, 0, 1, 1, 1};
   int f = (int)(sq & 7) + df[k], r = (int)(sq >> 3) + dr[k];
   return (f < 0 || f > 7 || r < 0 || r > 7) ? 64u : (uint32_t)(r * 8 + f);
 }
